@@ -86,9 +86,20 @@ def mru_invariant(case, ctx):
                                    forall([j], z3.Implies(z3.And(q.lo <= j, j < q.hi), q.arr[j] == q0.arr[j]),
                                           patterns=[q.arr[j]]))),
             ('queue.hashable', forall([x], z3.Implies(q.cnt[x] >= 1, Hashable(x)), patterns=[q.cnt[x]])),
+            # every entry popped so far was stale: not resident, or the key of this very call
+            # (which the loop skips: it is the fallback victim, not a candidate)
             ('popped.not_resident', forall([j], z3.Implies(z3.And(q.hi <= j, j < q0.hi),
-                                                           z3.Not(mem.dom[q0.arr[j]])), patterns=[q0.arr[j]])),
+                                                           z3.Or(q0.arr[j] == _call_key(case),
+                                                                 z3.Not(mem.dom[q0.arr[j]]))),
+                                           patterns=[q0.arr[j]])),
             ]
+
+
+def _call_key(case):
+    ex = case.extra.get('call')
+    if ex is None:
+        raise Unsupported('MRU eviction loop reached outside a wrapper call')
+    return case.key_terms(ex['a0'], ex['k0'])[0]
 
 
 # ---------------------------------------------------------------------------------------------
